@@ -37,6 +37,16 @@ CLAIMED = {
    note=TRUST + 'User functions are uninterpreted (T, L, Bl), row-wise when vectorised; the prior may clobber the array object it is given; pool.map ordered (C11). "Every evaluated point at '
         'most once" has no proof: bounded runtime check (duplicate rows) only. posterior() is verified as two mechanically extracted blocks.',
    tech='contract-based deductive verification incl. user-function theory and representation invariant, z3', ref='7 C03'),
+ 'C05': dict(
+   text='Deductive proof in four machine-checked pieces: (1) Sampler.write executed on an arbitrary sampler yields an explicit HDF5 tree holding every run-state field, all shells, '
+        'the transfer arrays, every bound with its proposal state and the generator state; (2) write_shell_update(shell) is equivalent to a full write for every change that can happen '
+        'between two writes - tree equality of update(write(s0), s1) and write(s1) where s1 differs from s0 by the modifies clauses of add_samples(shell), of the public discard setter and '
+        'the loop counters; (3) the real resume block of __init__ executed on that tree restores every continuation-state field, every bound (same object order, class-dispatched reader, '
+        'proposal state) and the generator state, handing the one shared generator to every bound; (4) call-order obligations on run(): every state-changing step is followed in the same '
+        'iteration by the matching write, and no run state lives in locals.',
+   note=TRUST + 'h5py exact + closed world; bounds abstract with the round-trip axiom (C09: proved for Union/basic classes, bounded for NautilusBound/NeuralBound); int(str(x)) = x. The final '
+        'step "equal continuation state => bit-identical continuation" is the determinism argument of C11 and is not machine-checked; constructor arguments are given again on resume.',
+   tech='contract-based deductive verification: write;update;write and write;resume compositions over the HDF5 map theory, z3', ref='7 C05'),
  'C09': dict(
    text='Deductive proof by symbolic execution of the real write followed by the real read on an HDF5 group model, per class: UnitCube, Ellipsoid, PhaseShift, '
         'UnitCubeEllipsoidMixture (all three cube/ellipsoid shapes) and Union (restricted to the unit cube or not; any number of members, any split/trim/sampling state, members abstract): '
